@@ -51,11 +51,12 @@ def input_defaults(s, fields, r):
 
 class SchemaGen:
     def __init__(self, rng, n_obj=None, n_iface=None, n_union=None, n_enum=None, n_input=None, deprecations=0.0,
-                 id_lists=True, custom_roots=None, odd_type_names=False, args=True):
+                 id_lists=True, custom_roots=None, odd_type_names=False, args=True, own_deprecation=0.0):
         self.rng = rng
         self.s = Schema()
         self.fcount = 0
         self.deprecations = deprecations
+        self.own_deprecation = own_deprecation   # P(an object's copy of an interface field differs from the interface's in deprecation)
         self.id_lists = id_lists
         self.args = args
         r = rng
@@ -126,14 +127,14 @@ class SchemaGen:
             impl = [i for i in ifaces if r.random() < 0.6]
             fields = []
             for i in impl:
-                fields += [dict(f) for f in s.types[i]["fields"]]
+                fields += [self.own_copy(f) for f in s.types[i]["fields"]]
             fields += self.rand_fields(r.randint(1, 5), self_type=o)
             s.add(o, {"kind": "object", "fields": fields, "implements": impl})
         for i in ifaces:
             if not s.possible(i):
                 o = r.choice(objs)
                 s.types[o]["implements"].append(i)
-                s.types[o]["fields"] = [dict(f) for f in s.types[i]["fields"]] + s.types[o]["fields"]
+                s.types[o]["fields"] = [self.own_copy(f) for f in s.types[i]["fields"]] + s.types[o]["fields"]
         for u in unions:
             s.add(u, {"kind": "union", "members": r.sample(objs, r.randint(1, min(3, len(objs))))})
         custom = custom_roots if custom_roots is not None else (r.random() < 0.2)
@@ -154,6 +155,19 @@ class SchemaGen:
                 if not s.roots.get(kind) and dn not in s.types and r.random() < 0.7:
                     s.add(dn, {"kind": "object", "fields": self.rand_fields(r.randint(1, 2), root=False), "implements": []})
                     self.outs.append(dn)
+
+    def own_copy(self, f):
+        """an implementing object redeclares the interface's field; deprecation is per declaration (legal GraphQL: an
+        object may deprecate a field its interface does not, and the other way round, or give another reason)"""
+        g = dict(f)
+        if self.own_deprecation and self.rng.random() < self.own_deprecation:
+            if g.get("deprecated") is None:
+                g["deprecated"] = {"reason": self.rng.choice(DEPRECATION_REASONS), "block": False}
+            elif self.rng.random() < 0.5:
+                g["deprecated"] = None
+            else:
+                g["deprecated"] = {"reason": "object-level: use something else", "block": False}
+        return g
 
     def rand_fields(self, n, root=False, self_type=None):
         r = self.rng
